@@ -413,4 +413,73 @@ theorem exec_described_mismatch (doc key a : List UInt8) (d : JDoc) (b : List UI
   simp only [stepOp, hb, if_true, and_self]
 example : stepOp (.skipvv [0x5b, 0x5d, 0x20] [] (.arr0 []) [0x21]) = .skipvv .mismatch := by decide +kernel
 
+/-- `Spec.Inet` satisfies the IPv4 half of `InetLaws`: `inet_pton(AF_INET, inet_ntop(AF_INET, a)) = a` for every
+    4-byte address, and the text has no `':'` and no NUL. -/
+theorem inet4_pton_ntop (a : List UInt8) (h : a.length = 4) :
+    ntop4 a = some (Inet.print4 a) ∧ Inet.parse4 (Inet.print4 a) = some a ∧
+      (∀ c ∈ Inet.print4 a, c ≠ 0x3a) ∧ (∀ c ∈ Inet.print4 a, c ≠ 0) :=
+  ⟨Proofs.ParsersStep.ntop4_eq a h, Proofs.ParsersStep.parse4_print4 a h,
+   fun c hc => (Proofs.ParsersStep.print4_chars a h c hc).2, fun c hc => (Proofs.ParsersStep.print4_chars a h c hc).1⟩
+example : Inet.print4 [192, 168, 0, 1] = "192.168.0.1".toUTF8.toList := by decide +kernel
+
+/-- `sres` on a Unix path (leading '/', no NUL, shorter than `sun_path`): L1 = the `sockaddr_un` holding the path;
+    L2: its text is the path, and that resolves back to the same address (`m=1`). -/
+theorem exec_sres_unix (path : List UInt8) (hs : path.head? = some 0x2f) (h0 : ∀ c ∈ path, c ≠ 0)
+    (hl : path.length < sunPathSize) :
+    stepOp (.sres path) = .sres (.addr (mkUn path) path true) := by
+  simp only [stepOp, Proofs.ParsersStep.cbytes_id path h0, Proofs.ParsersStep.sres_unix path hs h0 hl]
+example : stepOp (.sres "/tmp/s".toUTF8.toList) = .sres (.addr (mkUn "/tmp/s".toUTF8.toList) "/tmp/s".toUTF8.toList true) := by
+  decide +kernel
+
+/-- `sres` on a bracketed IPv4 literal `[t]:p` (`t` any text `Spec.Inet.parse4` accepts, port 1..65535): L1 = the
+    `sockaddr_in` with the address `t` denotes and port `p`; L2: its text is `[inet_ntop(a)]:p`, and that resolves
+    back to the same address (`m=1`) — for EVERY IPv4 address, by `inet4_pton_ntop`. -/
+theorem exec_sres_v4 (t a : List UInt8) (p : Nat) (h0 : ∀ c ∈ t, c ≠ 0) (hc : ∀ c ∈ t, c ≠ 0x3a)
+    (ht : Inet.parse4 t = some a) (h1 : 1 ≤ p) (h2 : p ≤ 65535) :
+    stepOp (.sres ([0x5b] ++ t ++ [0x5d, 0x3a] ++ decimal p)) =
+      .sres (.addr (mkIn a p) ([0x5b] ++ Inet.print4 a ++ [0x5d, 0x3a] ++ decimal p) true) := by
+  have ha := Proofs.ParsersStep.parse4_length t a ht
+  obtain ⟨_, l2, l3, l4⟩ := inet4_pton_ntop a ha
+  have hn : ∀ c ∈ [0x5b] ++ t ++ [0x5d, 0x3a] ++ decimal p, c ≠ 0 := by
+    intro c hm
+    simp only [List.mem_append, List.mem_cons, List.not_mem_nil, or_false] at hm
+    rcases hm with ((rfl | hm) | rfl | rfl) | hm
+    · decide
+    · exact h0 c hm
+    · decide
+    · decide
+    · exact Proofs.SockAddr.decimal_nul p c hm
+  simp only [stepOp, Proofs.ParsersStep.cbytes_id _ hn, Proofs.ParsersStep.sres_v4 t a p h0 hc ht h1 h2 l4 l3 l2]
+example : stepOp (.sres "[1.2.3.4]:80".toUTF8.toList) =
+    .sres (.addr (mkIn [1, 2, 3, 4] 80) "[1.2.3.4]:80".toUTF8.toList true) := by decide +kernel
+
+/- The full statement for IPv6 would be `exec_sres_v4` with `parse6` / `print6` / `mkIn6` and `0x3a ∈ t`, without the
+   three hypotheses on `Inet.print6 a`.  What is missing: the IPv6 half of `InetLaws` for `Spec.Inet`, i.e.
+   `parse6 (print6 a) = some a`, `0x3a ∈ print6 a`, no NUL in `print6 a`, for every 16-byte `a` (`print6` chooses the
+   longest zero run with a loop and has the dotted-quad forms; not proved).  The three hypotheses are decidable for a
+   concrete address (see the example). -/
+/-- `sres` on a bracketed IPv6 literal `[t]:p`: L1 = the `sockaddr_in6` with the address `t` denotes and port `p`;
+    L2: its text is `[inet_ntop(a)]:p`, which resolves back to the same address if `inet_pton` undoes `inet_ntop` on
+    this address. -/
+theorem exec_sres_v6_partial (t a : List UInt8) (p : Nat) (h0 : ∀ c ∈ t, c ≠ 0) (hc : 0x3a ∈ t)
+    (ht : Inet.parse6 t = some a) (h1 : 1 ≤ p) (h2 : p ≤ 65535)
+    (h0' : ∀ c ∈ Inet.print6 a, c ≠ 0) (hc' : 0x3a ∈ Inet.print6 a) (ht' : Inet.parse6 (Inet.print6 a) = some a) :
+    stepOp (.sres ([0x5b] ++ t ++ [0x5d, 0x3a] ++ decimal p)) =
+      .sres (.addr (mkIn6 a p) ([0x5b] ++ Inet.print6 a ++ [0x5d, 0x3a] ++ decimal p) true) := by
+  have hn : ∀ c ∈ [0x5b] ++ t ++ [0x5d, 0x3a] ++ decimal p, c ≠ 0 := by
+    intro c hm
+    simp only [List.mem_append, List.mem_cons, List.not_mem_nil, or_false] at hm
+    rcases hm with ((rfl | hm) | rfl | rfl) | hm
+    · decide
+    · exact h0 c hm
+    · decide
+    · decide
+    · exact Proofs.SockAddr.decimal_nul p c hm
+  simp only [stepOp, Proofs.ParsersStep.cbytes_id _ hn, Proofs.ParsersStep.sres_v6 t a p h0 hc ht h1 h2 h0' hc' ht']
+/-- `[0:0:0:0:0:0:0:1]:80` is printed as `[::1]:80`; the hypotheses hold for this address -/
+example : stepOp (.sres "[0:0:0:0:0:0:0:1]:80".toUTF8.toList) =
+      .sres (.addr (mkIn6 [0, 0, 0, 0, 0, 0, 0, 0, 0, 0, 0, 0, 0, 0, 0, 1] 80) "[::1]:80".toUTF8.toList true) ∧
+    Inet.parse6 (Inet.print6 [0, 0, 0, 0, 0, 0, 0, 0, 0, 0, 0, 0, 0, 0, 0, 1]) = some [0, 0, 0, 0, 0, 0, 0, 0, 0, 0, 0, 0, 0, 0, 0, 1] ∧
+    0x3a ∈ Inet.print6 [0, 0, 0, 0, 0, 0, 0, 0, 0, 0, 0, 0, 0, 0, 0, 1] := by decide +kernel
+
 end Percival.C17
